@@ -625,6 +625,7 @@ def run(ctx):
 
 
 SELFTESTS = [
+    (rule_lookup_keeps_hit, ["c15_find_bad.cc"], ["c15_find_good.cc"], "result="),
     (rule_translation, ["c15_bad.cc"], ["c15_good.cc"], "char 0x5E"),
     (rule_selector_assignment, ["c15_sel_bad.cc"], ["c15_sel_good.cc"], "subvolume_"),
 ]
